@@ -360,7 +360,8 @@ PROPS = {
                  "hits a running heartbeat; schedule with >=2 threads parked. Distinct by (timeout, subscribers, operation sequence) / schedule. Configurations: "
                  "entities created with time-outs that are no multiple of 100 ms (130..290 ms): mean gap of 8-12 notified refreshes <= announced time-out x 1.3 "
                  "+ 10 ms, with a control ticker of the harness deciding whether the case can be judged; a subscriber whose connection is stalled for 2-6 "
-                 "periods while Stop / RemoveEntity is called: counter advances by at most one after the call returned."),
+                 "periods while Stop / RemoveEntity is called: counter advances by at most one after the call returned; 1-2 peers with 2-3 subscribed "
+                 "DeviceDiagnosis client features each: every refresh is notified once to every subscribed feature."),
         "assumptions": ["timeouts are at least 100 ms (below that the announced duration rounds to 0 and time.NewTicker(0) aborts - outside the stated range)",
                         "timing tolerances from DESIGN A.6; a doubled period at 100 ms lies on the tolerance boundary"],
         "runs": [
@@ -371,6 +372,7 @@ PROPS = {
             {"name": "scenarios", "run": "TestSequentialScenarios", "kind": "plain"},
             {"name": "announced", "run": "TestAnnouncedPeriod", "kind": "rapid", "checks": {Q: 16, T: 640}, "shards": {Q: 8, T: 16}, "shrinktime": "10s"},
             {"name": "slowsubscriber", "run": "TestSlowSubscriber", "kind": "rapid", "checks": {Q: 16, T: 640}, "shards": {Q: 8, T: 16}, "shrinktime": "10s"},
+            {"name": "subscribers", "run": "TestSeveralSubscribersPerPeer", "kind": "rapid", "checks": {Q: 16, T: 640}, "shards": {Q: 8, T: 16}, "shrinktime": "10s"},
         ],
     },
     "C17": {
